@@ -25,7 +25,8 @@ TRACE_CFG = os.path.join(SPEC, "BanksTrace.cfg")
 VAC_LAYOUT = ["NoSuccess", "NoOverlapWin", "NoPrepend", "NoPadding", "NoOversize", "NoShort", "NoWriteOff"]
 VAC_ASSIGN = ["NoTwoFiles", "NoSharedFile", "NoUnknownBank", "NoNoBank", "NoPrgMulti", "NoHeader", "Strict"]
 VAC_EDGE = ["NoSizeRange", "NoUndefSeg", "NoZeroSize", "NoRangeErr"]
-ALL_DEVS = ["SingleSegmentBankOverridden", "PrgHeaderInSeparateFile"]
+VAC_EMPTY = ["NoEmptyLater", "Strict"]
+ALL_DEVS = ["SingleSegmentBankOverridden", "PrgHeaderInSeparateFile", "EmptySegmentStretchesBank"]
 
 
 def mc_cfg_text(profile, mb, ms, devs, base, starts, lens, sizes, invs, export):
@@ -50,6 +51,14 @@ def design_level(rep, tier, open_devs):
         f.write("\n".join(('CONSTANT Deviations = {%s}' % ", ".join('"%s"' % d for d in open_devs)) if l.startswith("CONSTANT Deviations") else l
                           for l in src.splitlines()) + "\n")
     runs.append(("assign-impl", impl_cfg, True))
+    # segments without bytes (they write no address): ideal reading, and the code as it is under the open findings
+    runs.append(("empty-ideal", "MC_Banks_empty_ideal.cfg", False))
+    src = open(os.path.join(SPEC, "MC_Banks_empty_impl.cfg")).read()
+    empty_cfg = os.path.join(wd, "MC_Banks_empty_impl.cfg")
+    with open(empty_cfg, "w") as f:
+        f.write("\n".join(('CONSTANT Deviations = {%s}' % ", ".join('"%s"' % d for d in open_devs)) if l.startswith("CONSTANT Deviations") else l
+                          for l in src.splitlines()) + "\n")
+    runs.append(("empty-impl", empty_cfg, True))
 
     def one(run):
         name, cfg, export = run
@@ -76,7 +85,8 @@ def design_level(rep, tier, open_devs):
             if not exported[name]:
                 raise V.ToolError("MC_Banks %s exported no cases" % name)
     # vacuity: every situation the property talks about occurs in the explored space
-    vac = [("layout", i) for i in VAC_LAYOUT] + [("assign", i) for i in VAC_ASSIGN if not (i == "Strict" and not open_devs)] + [("edge", i) for i in VAC_EDGE]
+    vac = [("layout", i) for i in VAC_LAYOUT] + [("assign", i) for i in VAC_ASSIGN if not (i == "Strict" and not set(open_devs) & {"SingleSegmentBankOverridden", "PrgHeaderInSeparateFile"})] + [("edge", i) for i in VAC_EDGE] \
+        + [("empty", i) for i in VAC_EMPTY if not (i == "Strict" and "EmptySegmentStretchesBank" not in open_devs)]
 
     def witness(pi):
         prof, inv = pi
@@ -84,6 +94,8 @@ def design_level(rep, tier, open_devs):
         with open(path, "w") as f:
             if prof == "layout":
                 f.write(mc_cfg_text("layout", 1, 2, [], 4096, ["0", "2", "4", "prev"], [1, 3], [99999, 5], [inv], False))
+            elif prof == "empty":  # "Strict" here = the code's reading of Bank::merge against the property: must be refuted while the finding is open
+                f.write(mc_cfg_text("layout", 1, 2, [d for d in open_devs if d == "EmptySegmentStretchesBank"], 4096, ["0", "5"], [0, 2], [99999], [inv], False))
             elif prof == "edge":   # at the top of the address space, with sizes on both sides of 0..65536
                 f.write(mc_cfg_text("layout", 1, 2, [], 65530, ["0", "5", "7", "prev"], [1, 3], [88888, 0, 65537], [inv], False))
             else:
@@ -187,7 +199,7 @@ def main(tier):
         return n
 
     # (a) TLC's configurations, each moved to a seeded base address and given layout-irrelevant options
-    take = {"layout": 2500 if quick else 60000, "layout4": 0 if quick else 30000, "range": 700 if quick else 5160, "sizes": 400 if quick else 10000, "assign-impl": 2500 if quick else 40000}
+    take = {"layout": 2500 if quick else 60000, "layout4": 0 if quick else 30000, "range": 700 if quick else 5160, "sizes": 400 if quick else 10000, "empty-impl": 1500 if quick else 20000, "assign-impl": 2500 if quick else 40000}
     for name, cases in exported.items():
         cases = list(cases)
         rnd.shuffle(cases)
@@ -203,10 +215,10 @@ def main(tier):
     # process level: every format x filename combination lives in the assign family and the random family
     ids_assign = [i for i in cfgs if fam[i] == "assign-impl"]
     ids_random = [i for i in cfgs if fam[i] == "random"]
-    ids_layout = [i for i in cfgs if fam[i] in ("layout", "range")]
+    ids_layout = [i for i in cfgs if fam[i] in ("layout", "range", "empty-impl")]
     rnd.shuffle(ids_assign)
     rnd.shuffle(ids_layout)
-    nproc = set(ids_assign[:200 if quick else 1200] + ids_random[:250 if quick else 1500] + ids_layout[:50 if quick else 400] + ids_edge)
+    nproc = set(ids_assign[:200 if quick else 1200] + ids_random[:250 if quick else 1500] + ids_layout[:80 if quick else 600] + ids_edge)
 
     V.log("[C09] %d configurations in-process, %d of them also through `mos build`" % (len(cfgs), len(nproc)))
     recs, meta = drive(rep, tier, cfgs, nproc, devs)
@@ -252,7 +264,7 @@ def main(tier):
     for r in [x for x in recs if x["ok"] and x["mode"] == "proc"][:3]:
         i = int(str(r["id"])[1:])
         rep.sample({"main.asm": meta[i]["src"], "mos.toml": meta[i]["toml"], "files": {f["name"]: bytes(f["data"]).hex() for f in r["files"]}})
-    rep.assumptions += ["segments are contiguous runs of .byte data (no '* =' holes inside a segment); empty segments are outside the property's quantifier and accepted either way",
+    rep.assumptions += ["segments are contiguous runs of .byte data (no '* =' holes inside a segment); a segment without bytes writes no address and belongs to no image",
                         "a lone user segment without a bank, and format prg with several banks, may be rejected or built (property silent); the prg header of a bank without bytes is unspecified",
                         "format unset means prg iff exactly one bank exists; default file name = entry stem + .prg/.bin (documented behaviour, supplied to TLC as data)",
                         "in-process runs call write_banks with the default name out.bin (no header exists in mos-core); header, format and file name selection are judged on `mos build` runs only"]
